@@ -1,9 +1,63 @@
-import Driver.Util
-/-! driver ops of C08 (prefix `c08.`); filled in by the C08 work -/
+import Driver.C03
+/-! driver ops of C08 (prefix `c08.`): size-limit sweeps, pad sweeps, step-by-step renderer traces.
+Falls through to the `c03.` ops (same message syntax). -/
 namespace Driver
 open Model
 
+/-- zlib's adler32 -/
+def adler32 (b : Bytes) : Nat :=
+  let r := b.foldl (fun (p : Nat × Nat) x => let a := (p.1 + x) % 65521; (a, (p.2 + a) % 65521)) (1, 0)
+  r.2 * 65536 + r.1
+
+def outcome (r : Except RErr Bytes) : String :=
+  match r with
+  | .ok b => s!"{b.length}.{adler32 b}"
+  | .error e => "E" ++ e.toString
+
+/-- run-length encode the outcomes over consecutive keys: `lo-hi=outcome` -/
+def rle : List (Nat × String) → List String
+  | [] => []
+  | (k, v) :: rest =>
+    let rec go (lo hi : Nat) (v : String) : List (Nat × String) → List String
+      | [] => [s!"{lo}-{hi}={v}"]
+      | (k', v') :: rest' => if v' = v then go lo k' v rest' else s!"{lo}-{hi}={v}" :: go k' k' v' rest'
+    go k k v rest
+
+/-- one renderer step for `c08.steps`: continue after `TooBig` exactly like a caller that catches it -/
+def stepsGo (s : RState) : List Item → List String → RState × List String
+  | [], acc => (s, acc)
+  | it :: rest, acc =>
+    match s.addItem it with
+    | .ok s' => stepsGo s' rest (acc ++ [s!"ok:{s'.out.length}:{s'.tbl.length}"])
+    | .tooBig s' => stepsGo s' rest (acc ++ [s!"big:{s'.out.length}:{s'.tbl.length}"])
+    | .err e => (s, acc ++ ["err:" ++ e.toString])
+
 def handleC08 : List String → Option String
-  | _ => none
+  | "c08.sweep" :: lo :: hi :: pt :: rest => do
+    let m ← parseMsgTokens rest
+    let lo ← lo.toNat?
+    let hi ← hi.toNat?
+    let pt ← parseBool pt
+    let rs := (List.range (hi + 1 - lo)).map fun i => (lo + i, outcome (m.toWire (lo + i) pt))
+    some ("ok " ++ " ".intercalate (rle rs))
+  | "c08.pads" :: ms :: pt :: pads :: rest => do
+    let m ← parseMsgTokens rest
+    let ms ← ms.toNat?
+    let pt ← parseBool pt
+    let pads ← (pads.splitOn ",").mapM String.toNat?
+    let rs := pads.map fun p => s!"{p}={outcome ({ m with pad := p }.toWire ms pt)}"
+    some ("ok " ++ " ".intercalate rs)
+  | "c08.steps" :: ms :: res :: rest => do
+    let m ← parseMsgTokens rest
+    let ms ← ms.toNat?
+    let res ← res.toNat?
+    match (RState.init m.id m.flags ms m.origin).reserve res with
+    | .error e => some ("err " ++ e.toString)
+    | .ok s =>
+      let (s, tr) := stepsGo s m.items []
+      let s := s.releaseReserved.writeHeader
+      some ("ok " ++ " ".intercalate tr ++ s!" out={toHexP s.out} max={s.maxSize} tbl="
+        ++ ";".intercalate (s.tbl.map fun p => showName p.1 ++ "@" ++ toString p.2))
+  | toks => handleC03 toks
 
 end Driver
